@@ -1310,7 +1310,11 @@ impl ControlEngine {
             "limits" => self.bump("raw_limits"),
             _ => self.bump("raw_obj"),
         }
-        let is_sub = matches!(method.as_deref(), Some("subscribe" | "unsubscribe" | "get_subscription_count"));
+        // A line beyond the generic parser's limits (an out-of-range number in a field the request type ignores, ...)
+        // may still be a request to the implementation; its method is then unknown to this oracle, and if it can
+        // spell a subscription method the entry points with and without a hub legitimately answer differently.
+        let is_sub = matches!(method.as_deref(), Some("subscribe" | "unsubscribe" | "get_subscription_count"))
+            || (cls == "limits" && (line.contains("subscri") || line.contains("\\u")));
         let outs = self.run_all(line);
         let mut wfwhy: Vec<String> = Vec::new();
         let mut agwhy: Vec<String> = Vec::new();
